@@ -1046,7 +1046,8 @@ func pruneEdges(hnp hashAndPos, numAdds, numLeaves uint64, forestRows, prevFores
 		if err != nil {
 			return hashAndPos{}, err
 		}
-		if prevStartPos+offset <= maxPos {
+		// Nothing exists in an empty forest.
+		if numLeaves != numAdds && prevStartPos+offset <= maxPos {
 			prevTargetsWithHash.Append(target, hnp.hashes[i])
 		}
 	}
@@ -1065,37 +1066,11 @@ func (p *Proof) undoAdd(numAdds, numLeaves uint64, cachedHashes []Hash, toDestro
 	prevForestRows := TreeRows(numLeaves - numAdds)
 
 	// Move positions to their previous positions before the empty roots were destroyed.
-	for _, destroyed := range toDestroy {
-		for i, target := range targetsWithHash.positions {
-			if destroyed <= target {
-				continue
-			}
-
-			// If these positions are in different subtrees, continue.
-			subtree, _, _, _ := DetectOffset(target, numLeaves)
-			subtree1, _, _, _ := DetectOffset(destroyed, numLeaves-numAdds)
-			if subtree != subtree1 {
-				continue
-			}
-			if isAncestor(Parent(destroyed, forestRows), target, forestRows) {
-				targetsWithHash.positions[i] = calcPrevPosition(target, destroyed, forestRows)
-			}
-		}
-
-		for i, target := range proofWithPos.positions {
-			if destroyed <= target {
-				continue
-			}
-			// If these positions are in different subtrees, continue.
-			subtree, _, _, _ := DetectOffset(target, numLeaves)
-			subtree1, _, _, _ := DetectOffset(destroyed, numLeaves-numAdds)
-			if subtree != subtree1 {
-				continue
-			}
-			if isAncestor(Parent(destroyed, forestRows), target, forestRows) {
-				proofWithPos.positions[i] = calcPrevPosition(target, destroyed, forestRows)
-			}
-		}
+	// The roots were destroyed in ascending order so they're put back in descending order.
+	for i := len(toDestroy) - 1; i >= 0; i-- {
+		parent := Parent(toDestroy[i], forestRows)
+		moveDownPositions(forestRows, parent, toDestroy[i], targetsWithHash.positions)
+		moveDownPositions(forestRows, parent, toDestroy[i], proofWithPos.positions)
 	}
 
 	// Prune all positions that can't exist in the previous forest rows.
@@ -1107,31 +1082,6 @@ func (p *Proof) undoAdd(numAdds, numLeaves uint64, cachedHashes []Hash, toDestro
 	proofWithPos, err = pruneEdges(proofWithPos, numAdds, numLeaves, forestRows, prevForestRows)
 	if err != nil {
 		return nil, err
-	}
-
-	// Prune all positions that are under the previously empty root.
-	for row := 0; row <= int(prevForestRows); row++ {
-		for _, destroyed := range toDestroy {
-			for i := 0; i < proofWithPos.Len(); i++ {
-				target := proofWithPos.positions[i]
-				// If these positions are in different subtrees, continue.
-				subtree, _, _, _ := DetectOffset(destroyed, numLeaves)
-				subtree1, _, _, _ := DetectOffset(target, numLeaves)
-				if subtree == subtree1 || target == destroyed {
-					proofWithPos.Delete(i)
-				}
-			}
-
-			for i := 0; i < targetsWithHash.Len(); i++ {
-				target := targetsWithHash.positions[i]
-				// If these positions are in different subtrees, continue.
-				subtree, _, _, _ := DetectOffset(destroyed, numLeaves)
-				subtree1, _, _, _ := DetectOffset(target, numLeaves)
-				if subtree == subtree1 || target == destroyed {
-					targetsWithHash.Delete(i)
-				}
-			}
-		}
 	}
 
 	// Remap all positions to their previous positions before the remap.
@@ -1158,6 +1108,10 @@ func (p *Proof) undoAdd(numAdds, numLeaves uint64, cachedHashes []Hash, toDestro
 			proofWithPos.positions[i] = offset + prevStartPos
 		}
 	}
+
+	// Moving the positions down may have put them out of order.
+	sort.Sort(targetsWithHash)
+	sort.Sort(proofWithPos)
 
 	// There may be extra proof hashes that we don't need anymore. Calculate the
 	// needed positions and remove the rest.
